@@ -502,6 +502,42 @@ def gen_base64(rng, tier):
                 else:
                     e = e[:len(e) - rng.randint(1, min(4, len(e)))] + list(rng.choice(['', '=', '==', '===']))
                 out.append((rng.choice(['base64DecodeBytes', 'base64Decode']), ''.join(e), 'mutated'))
+    # malformed encodings, systematically: one offending character of every code-point class at every position
+    # of a quantum (first / middle / last quantum, padded and unpadded tails); the decoder must decide on the
+    # code point, never on its low byte
+    alias = [0x100 * k + ord(c) for c in 'AZaz09+/=Mm5' for k in (1, 2, 0x20, 0x2f, 0xff)] + \
+            [0x10000 + ord(c) for c in 'Aa0+/='] + [0x1f600 + 0x41 - 0x00, 0x1F441, 0x10FF41, 0xE0041]
+    classes = {
+        'ascii': [ord(c) for c in ' !"#$%&\'()*,-.:;<>?@[\\]^_`{|}~\x00\t\n\x7f'],
+        'latin1': [0x80, 0xa0, 0xc1, 0xe9, 0xfa, 0xff, 0xb7, 0xd7],
+        'alias': [c for c in alias if not (0xD800 <= c <= 0xDFFF) and c <= 0x10FFFF],
+        'pad': [ord('=')],
+    }
+    tails = ['QUJD', 'QUI=', 'QQ==']
+    per = 6 if tier == 'thorough' else 2
+    for cname, cl in classes.items():
+        for tail in tails:
+            for nq in (0, 1, 2):           # quanta before the last one
+                base = [rng.choice(B64A) for _ in range(4 * nq)] + list(tail)
+                for pos in range(len(base)):
+                    picks = cl if cname == 'pad' else rng.sample(cl, min(per, len(cl)))
+                    for c in picks:
+                        e = list(base)
+                        if e[pos] == chr(c):
+                            continue
+                        e[pos] = chr(c)
+                        out.append((rng.choice(['base64DecodeBytes', 'base64Decode']), ''.join(e), 'malformed-' + cname))
+    # every aliasing code point once in each of the four positions of a single quantum (both builtins)
+    for c in classes['alias']:
+        pos = rng.randrange(4)
+        e = list('QUJD')
+        e[pos] = chr(c)
+        out.append(('base64DecodeBytes', ''.join(e), 'malformed-alias'))
+        out.append(('base64Decode', ''.join(e), 'malformed-alias'))
+    # wrong lengths
+    for L in (1, 2, 3, 5, 6, 7, 9, 13):
+        out.append((rng.choice(['base64DecodeBytes', 'base64Decode']), ''.join(rng.choice(B64A) for _ in range(L)), 'malformed-length'))
+        out.append((rng.choice(['base64DecodeBytes', 'base64Decode']), ''.join(rng.choice(B64A) for _ in range(L - 1)) + '\u0141', 'malformed-length'))
     # strings with code points >= 256 and around
     for s in ['\u0100', 'abc\u0100', '\u00ff\u00fe', 'a\U0001F600', '\u00e9', 'h\u00e9llo', '\u0101' * 3, 'ab\u2028']:
         out.append(('base64s', s, 'non-byte-char'))
@@ -565,6 +601,8 @@ def gen_utf8(rng, tier):
             # valid text with a few bytes damaged
             t = bytearray(''.join(chr(rng.choice([0x41, 0xe9, 0x65e5, 0x1f600, 0x7ff, 0x800, 0xffff, 0x10000, 0x10ffff])) for _ in range(L)).encode())
             for _ in range(rng.randint(1, 2)):
+                if not t:
+                    break
                 p = rng.randrange(len(t))
                 if rng.random() < 0.5:
                     t[p] = rng.choice(interesting)
@@ -994,7 +1032,7 @@ def run_cases(run, specs, impl_exe, model_exe, c0_hi, label):
 
 
 def i_sample(c):
-    return c.tag in ('round-tie', 'nondigit', 'mutated', 'invalid', 'deep', 'numbers')
+    return c.tag in ('round-tie', 'nondigit', 'mutated', 'invalid', 'deep', 'numbers', 'malformed-alias')
 
 
 def run_yaml(run, rng, impl_exe, tier):
@@ -1061,7 +1099,7 @@ def check(run):
     rng = vlib.rng_for(run.seed, ID)
     run.rule = ('per builtin: parseInt/Octal/Hex digit strings of 1..400 digits (random; a non-digit incl. 2/3/4-byte characters at every position; '
                 '53-bit prefix + half-way digit + zeros + optional far sticky digit; overflow edge); base64 of random/edge byte arrays as arrays and as strings, '
-                'numbers outside 0..255, decode of canonical and mutated encodings; all Unicode scalar values (stratified in quick, exhaustive in thorough) through '
+                'numbers outside 0..255, decode of canonical and mutated encodings, and malformed encodings with one offending character of every class (ASCII non-alphabet, Latin-1, code points whose low byte aliases an alphabet character: U+01xx/U+02xx/U+20xx/U+2Fxx/U+FFxx/astral, misplaced =) at every position of the first/middle/last quantum, wrong lengths; all Unicode scalar values (stratified in quick, exhaustive in thorough) through '
                 'encodeUTF8/decodeUTF8 and ill-formed byte sequences; escapers on strings over the special characters; generated JSON documents (nesting <= 100, all number '
                 'and escape forms, varied whitespace) and 2 mutations of each; YAML documents/mutations (totality) and JSON documents through parseYaml vs parseJson. '
                 'non-trivial = distinct (function, generator class, outcome class, input).')
